@@ -367,6 +367,14 @@ func corpusCases() []*Case {
 		// value tuples whose concatenations collide must stay distinct keys
 		mk([]string{"-row", "/a,/b"}, rep("BenchmarkEnc/a=1/b=10 1 10 ns/op", 2)+rep("BenchmarkEnc/a=11/b=0 1 20 ns/op", 2)+rep("BenchmarkEnc/a=x 1 30 ns/op", 2)+rep("BenchmarkEnc/b=x 1 40 ns/op", 2)),
 		mk([]string{"-col", "/a,/b", "-row", ".name"}, rep("BenchmarkEnc/a=1/b=10 1 10 ns/op", 2)+rep("BenchmarkEnc/a=11/b=0 1 20 ns/op", 2)+rep("BenchmarkEnc/a=x 1 30 ns/op", 2)+rep("BenchmarkEnc/b=x 1 40 ns/op", 2)),
+		// flag validation at and beyond the ends of [0, 1]
+		mk([]string{"-confidence", "1.5"}, rep("BenchmarkA 1 10 ns/op", 6), rep("BenchmarkA 1 11 ns/op", 6)),
+		mk([]string{"-confidence", "2"}, rep("BenchmarkA 1 10 ns/op", 6), rep("BenchmarkA 1 11 ns/op", 6)),
+		mk([]string{"-alpha", "1.5"}, rep("BenchmarkA 1 10 ns/op", 6), rep("BenchmarkA 1 11 ns/op", 6)),
+		mk([]string{"-alpha", "-0.1"}, rep("BenchmarkA 1 10 ns/op", 6), rep("BenchmarkA 1 11 ns/op", 6)),
+		mk([]string{"-confidence", "-0.5"}, rep("BenchmarkA 1 10 ns/op", 6), rep("BenchmarkA 1 11 ns/op", 6)),
+		mk([]string{"-alpha", "1", "-confidence", "1"}, rep("BenchmarkA 1 10 ns/op", 6), rep("BenchmarkA 1 11 ns/op", 6)),
+		mk([]string{"-alpha", "0.3"}, "BenchmarkA 1 10 ns/op\nBenchmarkA 1 12 ns/op\nBenchmarkA 1 11 ns/op\nBenchmarkA 1 13 ns/op\n", "BenchmarkA 1 14 ns/op\nBenchmarkA 1 12.5 ns/op\nBenchmarkA 1 15 ns/op\n"),
 		// exact assumption
 		mk([]string{"-col", "note"}, "Unit text-bytes assume=exact\nnote: before\n\nBenchmarkSize 1 100 text-bytes\nBenchmarkN 1 100 text-bytes\nBenchmarkN 1 101 text-bytes\n\nnote: after\n\nBenchmarkSize 1 105 text-bytes\nBenchmarkN 1 101 text-bytes\n"),
 	}
